@@ -30,6 +30,9 @@ import Driver.Util
     vadnrg <vs> <xs>                     VAD sub-frame energy loop (c / sse4_1)      -> v=<sumSquared>
     invvarq <b> <Q> / divvarq <a> <b> <Q>   silk_INVERSE32_varQ / silk_DIV32_varQ    -> value
     sarround <vs> <a> <b> <bits>         silk_sar_round_smulww (avx2) / the C expression (c) -> v=value
+    lane <op> <vs> <a> <b> <c>           one lane of the NSQ_del_dec_avx2.c helpers (avx2) / the C macro (c):
+                                         addsat a b, subsat a b, limit num l1 l2, smulww a b, smulwb a b,
+                                         srairound a bits, rand seed                  -> v=value
 -/
 namespace Driver.SuiteKernels
 open Opus Opus.Kernels Driver
@@ -239,6 +242,25 @@ def handle : List String → String
           else if v = "c" then some s!"c={sarRoundSmulwwC a b bits}"
           else if v = "old64" then some s!"old64={sarRoundSmulww64 a b bits}"
           else none)
+        if out.any (·.isNone) then "bad-op" else " ".intercalate (out.filterMap id)
+    | _, _, _ => "bad-op"
+  | ["lane", op, vs, a, b, c] =>
+    match parseInt a, parseInt b, parseInt c with
+    | some a, some b, some c =>
+      let f : Option (Int × Int) :=      -- (avx2 lane, C macro)
+        if op = "addsat" then some (addSatLane a b, addSat32C a b)
+        else if op = "subsat" then some (subSatLane a b, subSat32C a b)
+        else if op = "limit" then some (limitLane a b c, limit a b c)
+        else if op = "smulww" then some (wrap32 (smulwwLaneAvx2 a b), smulww a b)
+        else if op = "smulwb" then some (wrap32 (smulwbLaneAvx2 a b), smulwb a b)
+        else if op = "srairound" then (if 0 < b ∧ b < 31 then some (sraiRoundLane a b.toNat, rshiftRound a b.toNat) else none)
+        else if op = "rand" then some (randLane a, randC a)
+        else none
+      match f with
+      | none => "bad-op"
+      | some (x, y) =>
+        let out := (vs.splitOn ",").map (fun v =>
+          if v = "avx2" then some s!"avx2={x}" else if v = "c" then some s!"c={y}" else none)
         if out.any (·.isNone) then "bad-op" else " ".intercalate (out.filterMap id)
     | _, _, _ => "bad-op"
   | ["vadnrg", vs, xs] =>
